@@ -41,12 +41,12 @@ let rec parse_dgrams toks = match toks with
 
 let show_event = function
   | EvDrop -> "drop" | EvIgnore -> "ign" | EvFamilyReset -> "reset" | EvFault -> "fault"
-  | EvFailure m -> "fail:" ^ hex_of_bytes m
+  | EvFailure _ -> "fail"              (* message text: not constrained by the property, projected out *)
   | EvSuccess l -> "success:" ^ show_addrs l
   | EvNewPeers l -> "newpeers:" ^ show_addrs l
   | EvConnected c -> "connected:" ^ hexn 16 c
   | EvScrapeSuccess -> "scrape-ok"
-  | EvScrapeFailure m -> "scrape-fail:" ^ hex_of_bytes m
+  | EvScrapeFailure _ -> "scrape-fail"
 
 let show_tx x = if x = N0 then "0" else if x = tx_connect then "C" else if x = tx_announce then "A" else "?" ^ string_of_n x
 let show_ts ts =
@@ -171,4 +171,23 @@ let () = each_line (fun line ->
       let bodies = List.map bytes_of_hex (List.filter (fun b -> b <> "~") bodies) in
       let (h, evs) = http_two_families info_hash (n_of_string ev) bodies in
       String.concat ";" (List.map (function HRetry -> "retry" | HEv e -> show_event e) evs) ^ " | " ^ show_ts h.h_ts
+  | "DF" :: own :: target :: kind :: resp :: tidm :: idm :: srcm :: toks ->
+      let num h = n_of_zt (BZ.of_string ("0x" ^ h)) in
+      let nodes = match toks with
+        | ["~"] -> None
+        | _ -> Some (List.concat (List.map (fun tok ->
+                   if tok.[0] = 'R' then begin
+                     let c = String.index tok ':' in
+                     let k = int_of_string (String.sub tok (c + 1) (String.length tok - c - 1)) in
+                     bytes_of_hex (String.sub tok 1 (c - 1)) @ List.map n_of_int [127; 0; 0; k; 3; 232 + k]
+                   end else bytes_of_hex (String.sub tok 1 (String.length tok - 1))) toks)) in
+      let matched = tidm = "m" && idm = "m" && srcm = "s" in
+      (match dht_find_node_reply (kind = "A") matched (num own) (num target) (num resp) nodes with
+       | FnIgnored | FnFailed -> "-"
+       | FnGetPeers -> "get_peers@2"
+       | FnQueries [] -> "-"
+       | FnQueries l ->
+           String.concat "," (List.sort compare (List.map (fun (_, a) ->
+             match a with A4 (ip, _) -> "find_node@" ^ string_of_int (int_of_n ip land 255) | A6 _ -> "?") l))
+       | FnFault -> "FAULT")
   | _ -> "BADCASE")
